@@ -147,24 +147,100 @@ func c17DashTests(fn *ssa.Function, subj func(ssa.Value) bool, depth int) []c17T
 					continue
 				}
 				inner := c17DashTests(h, func(v ssa.Value) bool { return v == ssa.Value(p) }, depth-1)
-				if len(inner) != 1 || !inner[0].when {
+				if len(inner) != 1 {
 					continue
 				}
-				// the helper returns that test (or false)
-				ok := true
-				eng.Instrs(h, func(hi ssa.Instruction) {
-					if r, isR := hi.(*ssa.Return); isR {
-						for _, lf := range eng.PhiLeaves(r.Results[0]) {
-							if lf.V != inner[0].val && !eng.IsBoolConst(lf.V, false) {
-								ok = false
-							}
-						}
-					}
-				})
-				if ok {
+				// the helper's result has truth value w only where the test holds: isInverted(s)
+				// (w = true) as well as its De Morgan twin isPositive(s) (w = false)
+				if w, ok := c17ResultImplies(h, inner[0].val, inner[0].when); ok {
 					t := inner[0]
-					t.val = x
+					t.val, t.when = x, w
 					out = append(out, t)
+				}
+			}
+		}
+	})
+	return out
+}
+
+// c17ResultImplies finds the truth value w of the single boolean result of helper h such that
+// "h(…) == w" implies "v == want" (v a boolean value of h): on every return the result either
+// is a constant different from w or implies v == want (through !, && / || phis).
+func c17ResultImplies(h *ssa.Function, v ssa.Value, want bool) (bool, bool) {
+	rets := c17Returns(h)
+	for _, w := range []bool{true, false} {
+		ok, some := len(rets) > 0, false
+		for _, r := range rets {
+			if len(r.Results) != 1 {
+				ok = false
+				break
+			}
+			rv := r.Results[0]
+			if eng.IsBoolConst(rv, !w) {
+				continue
+			}
+			if t, known := eng.CondImplies(rv, w, v); known && t == want {
+				some = true
+				continue
+			}
+			ok = false
+		}
+		if ok && some {
+			return w, true
+		}
+	}
+	return false, false
+}
+
+// c17StarTests finds the comparisons of strings satisfying subj with a string constant:
+// `s == "c"` / `s != "c"` in fn, or a same-package helper h(s) returning exactly such a
+// comparison of its parameter (possibly negated) — `isMatchAll(r)`.
+func c17StarTests(fn *ssa.Function, subj func(ssa.Value) bool, depth int) []c17Test {
+	var out []c17Test
+	eng.Instrs(fn, func(ins ssa.Instruction) {
+		switch x := ins.(type) {
+		case *ssa.BinOp:
+			if x.Op != token.EQL && x.Op != token.NEQ {
+				return
+			}
+			for _, xy := range [][2]ssa.Value{{x.X, x.Y}, {x.Y, x.X}} {
+				if s, ok := eng.StringConst(xy[1]); ok && subj(xy[0]) {
+					out = append(out, c17Test{val: x, when: x.Op == token.EQL, konst: s, subj: xy[0]})
+				}
+			}
+		case *ssa.Call:
+			h := x.Call.StaticCallee()
+			if h == nil || h == fn || h.Blocks == nil || depth <= 0 || h.Pkg != fn.Pkg || h.Signature.Results().Len() != 1 {
+				return
+			}
+			rets := c17Returns(h)
+			if len(rets) != 1 || len(rets[0].Results) != 1 {
+				return
+			}
+			for pi, p := range h.Params {
+				if pi >= len(x.Call.Args) || !subj(x.Call.Args[pi]) {
+					continue
+				}
+				inner := c17StarTests(h, func(v ssa.Value) bool { return v == ssa.Value(p) }, depth-1)
+				if len(inner) != 1 {
+					continue
+				}
+				// exactness: the result is the comparison itself or its negation
+				rv, neg := rets[0].Results[0], false
+				for {
+					u, isNot := rv.(*ssa.UnOp)
+					if !isNot || u.Op != token.NOT {
+						break
+					}
+					rv, neg = u.X, !neg
+				}
+				if rv == inner[0].val {
+					st := inner[0]
+					st.val, st.subj = x, x.Call.Args[pi]
+					if neg {
+						st.when = !st.when
+					}
+					out = append(out, st)
 				}
 			}
 		}
@@ -175,17 +251,7 @@ func c17DashTests(fn *ssa.Function, subj func(ssa.Value) bool, depth int) []c17T
 // c17Classify analyses fn as a classifier of the entries of its []string parameter p.
 func c17Classify(w *eng.World, fn *ssa.Function, p *ssa.Parameter, depth int) *c17Cls {
 	k := &c17Cls{w: w, fn: fn, param: p, sites: map[*ssa.Call]*c17Site{}}
-	eng.Instrs(fn, func(ins ssa.Instruction) {
-		b, ok := ins.(*ssa.BinOp)
-		if !ok || (b.Op != token.EQL && b.Op != token.NEQ) {
-			return
-		}
-		for _, xy := range [][2]ssa.Value{{b.X, b.Y}, {b.Y, b.X}} {
-			if s, ok := eng.StringConst(xy[1]); ok && k.isElem(xy[0]) {
-				k.stars = append(k.stars, c17Test{val: b, when: b.Op == token.EQL, konst: s, subj: xy[0]})
-			}
-		}
-	})
+	k.stars = c17StarTests(fn, k.isElem, depth)
 	k.dashes = c17DashTests(fn, k.isElem, depth)
 	sl := &eng.Slicer{W: w, Depth: 0}
 	for _, ci := range eng.Calls(fn) {
@@ -203,9 +269,12 @@ func c17Classify(w *eng.World, fn *ssa.Function, p *ssa.Parameter, depth int) *c
 			continue
 		}
 		s := &c17Site{call: call}
+		// the append runs only where the entry is known to be inverted: a guard that is the
+		// inversion test itself, its negation, or a named condition built from it with && / ||
+		// (`isPositive := len(r) == 0 || r[0] != '-'`; the else branch implies r[0] == '-')
 		for _, g := range eng.GuardsOf(call) {
 			for _, d := range k.dashes {
-				if t, ok := eng.CondHolds(g, d.val); ok && t == d.when {
+				if t, ok := eng.GuardImplies(g, d.val); ok && t == d.when {
 					s.inverted = true
 				}
 			}
@@ -1190,8 +1259,40 @@ func c17(c *eng.Ctx) {
 		fmt.Sprintf("%d distinct []string->[]string functions are applied to the fields (exactly one expected; it is the function R2/R3 analyse)", len(callees)))
 
 	// ---- R1: Admit writes N(rule) back into the element it read
+	// the functions the body of a mutating plugin's Admit is spread over: the method itself, its
+	// closures and the helpers it calls whose callers are all known (extracted loops)
 	ncalls, inAdmit := 0, false
 	mut := c.W.Interface("k8s.io/apiserver/pkg/admission", "MutationInterface")
+	admitRegion := map[*ssa.Function]*ssa.Function{} // function of the region -> its Admit method
+	for _, g := range c.W.FuncsOf(pkgAdmission) {
+		if rv := g.Signature.Recv(); rv != nil && g.Parent() == nil && g.Name() == "Admit" && mut != nil && implementsIfaceC17(rv.Type(), mut) {
+			for _, h := range c.W.Region(g) {
+				if admitRegion[h] == nil {
+					admitRegion[h] = g
+				}
+			}
+			// … and the same-package functions it calls statically (an extracted helper may be
+			// exported or shared with other callers; it still runs as part of Admit)
+			var reach func(f *ssa.Function, depth int)
+			reach = func(f *ssa.Function, depth int) {
+				for _, ff := range eng.WithClosures(f) {
+					for _, ci := range eng.Calls(ff) {
+						h := ci.Common().StaticCallee()
+						if h == nil || h.Blocks == nil || h.Pkg == nil || h.Pkg != g.Pkg || admitRegion[h] != nil {
+							continue
+						}
+						admitRegion[h] = g
+						if depth > 0 {
+							reach(h, depth-1)
+						}
+					}
+				}
+			}
+			for _, h := range c.W.Region(g) {
+				reach(h, eng.LiftDepth-1)
+			}
+		}
+	}
 	for _, g := range c.W.FuncsOf(pkgAdmission) {
 		for _, ci := range eng.CallsToFn(g, norm) {
 			ncalls++
@@ -1216,11 +1317,12 @@ func c17(c *eng.Ctx) {
 					ok = ok && n > 0
 				}
 			}
-			c.Check("R1", g, "rule element ← normalise(the same element)", ci.Pos(), ok,
-				"the normalised rule must replace exactly the rule it was computed from (same slice, same indices); anything else stores a rule the client did not submit")
-			if rv := g.Signature.Recv(); rv != nil && g.Name() == "Admit" && mut != nil && implementsIfaceC17(rv.Type(), mut) {
-				inAdmit = true
+			anchor := g // a call moved into a helper of Admit is reported against Admit
+			if a := admitRegion[g]; a != nil {
+				anchor, inAdmit = a, true
 			}
+			c.Check("R1", anchor, "rule element ← normalise(the same element)", ci.Pos(), ok,
+				"the normalised rule must replace exactly the rule it was computed from (same slice, same indices); anything else stores a rule the client did not submit")
 		}
 	}
 	if ncalls == 0 || !inAdmit {
@@ -1361,6 +1463,69 @@ func goodContinue(rules []string) []string {
 		return inv
 	}
 	return pos
+}
+
+func isPos(r string) bool {
+	if len(r) == 0 {
+		return true
+	}
+	return r[0] != '-'
+}
+
+func isAll(r string) bool { return All == r }
+
+func goodDeMorgan(rules []string) []string {
+	var pos, inv []string
+	for i := 0; i < len(rules); i++ {
+		r := rules[i]
+		if r == All {
+			return []string{All}
+		}
+		positive := len(r) == 0 || r[0] != '-'
+		if positive {
+			pos = append(pos, r)
+		} else {
+			inv = append(inv, r)
+		}
+	}
+	if len(pos) > 0 {
+		return pos
+	}
+	return inv
+}
+
+func goodPosHelper(rules []string) []string {
+	var pos, inv []string
+	for _, r := range rules {
+		switch {
+		case isAll(r):
+			return []string{All}
+		case isPos(r):
+			pos = append(pos, r)
+		default:
+			inv = append(inv, r)
+		}
+	}
+	if 0 < len(pos) {
+		return pos
+	}
+	return inv
+}
+
+func badDeMorganMixed(rules []string) []string {
+	var pos, inv []string
+	for _, r := range rules {
+		if r == All {
+			return []string{All}
+		}
+		positive := len(r) == 0 || r[0] != '-'
+		if positive {
+			pos = append(pos, r)
+		} else {
+			inv = append(inv, r)
+		}
+	}
+	return append(inv, pos...)
 }
 
 func badStrip(rules []string) []string {
@@ -1573,6 +1738,35 @@ func useB(rules []string, req string) bool {
 	return false
 }
 
+func classifyD(rules []string) (pos, inv []string, all bool) {
+	for i := range rules {
+		r := rules[i]
+		if isAll(r) {
+			all = true
+			return
+		}
+		if isPos(r) {
+			pos = append(pos, r)
+			continue
+		}
+		inv = append(inv, r[1:])
+	}
+	return
+}
+
+func useD(rules []string, req string) bool {
+	pos, inv, all := classifyD(rules)
+	switch {
+	case all:
+		return true
+	case len(pos) != 0:
+		return anyOf(pos, req)
+	case len(inv) != 0:
+		return !anyOf(inv, req)
+	}
+	return false
+}
+
 func classifyBadMix(rules []string) (out []m, all bool) {
 	inv := []m{}
 	for _, r := range rules {
@@ -1654,14 +1848,15 @@ func c17Fixtures(c *eng.Ctx) {
 		}
 	}
 	normWant := map[string]string{
-		"good": "", "goodEarly": "", "goodContinue": "",
-		"badStrip":     "every element of|every entry is",
-		"badBoth":      "positives shadow inverted",
-		"badDrop":      "every entry is",
-		"badStar":      "the match-all list",
-		"badNoLen":     "len>0 tested before",
-		"badLost":      "positives shadow inverted",
-		"badStarLoses": "an entry equal",
+		"good": "", "goodEarly": "", "goodContinue": "", "goodDeMorgan": "", "goodPosHelper": "",
+		"badDeMorganMixed": "positives shadow inverted",
+		"badStrip":         "every element of|every entry is",
+		"badBoth":          "positives shadow inverted",
+		"badDrop":          "every entry is",
+		"badStar":          "the match-all list",
+		"badNoLen":         "len>0 tested before",
+		"badLost":          "positives shadow inverted",
+		"badStarLoses":     "an entry equal",
 	}
 	for name, want := range normWant {
 		fn := p.Func(name)
@@ -1671,6 +1866,7 @@ func c17Fixtures(c *eng.Ctx) {
 	matchWant := map[string]string{
 		"classifyA":      "",
 		"classifyB":      "",
+		"classifyD":      "",
 		"classifyBadMix": "inverted entries are",
 		"classifyC":      "inverted entries are|match-all short-circuits to",
 	}
